@@ -180,92 +180,106 @@ fn any_estimator() -> crate::hll::estimator::HipEstimator {
     e
 }
 
+fn any_regs16() -> ([u8; 16], u32) {
+    let regs: [u8; 16] = kani::any();
+    let mut z = 0u32;
+    let mut i = 0;
+    while i < 16 {
+        kani::assume(regs[i] <= 63);
+        if regs[i] == 0 {
+            z += 1;
+        }
+        i += 1;
+    }
+    (regs, z)
+}
+
+fn check_array_header(b: &[u8], e: &crate::hll::estimator::HipEstimator, zeros: u32, tgt: u8) {
+    assert!(b[0] == 10 && b[1] == 1 && b[2] == 7 && b[3] == 4, "preInts / serVer / family / lgK");
+    assert!((b[5] & 16 != 0) == e.is_out_of_order(), "out-of-order flag");
+    assert!(b[5] & 4 == 0, "empty flag on an array image");
+    assert!(b[7] == (2 | (tgt << 2)), "mode byte: HLL mode | target type << 2");
+    assert!(rd_f64_bits(b, 8) == e.hip_accum().to_bits() && rd_f64_bits(b, 16) == e.kxq0().to_bits() && rd_f64_bits(b, 24) == e.kxq1().to_bits(), "estimator fields");
+    assert!(rd_u32(b, 32) == zeros && rd_u32(b, 36) == 0, "numAtCurMin / auxCount");
+}
+
 //@ props: C11 C12 C13 C18
 //@ tier: quick
 //@ timeout: 1800
 //@ functions: hll::array8::Array8::serialize
 //@ functions: hll::array8::Array8::deserialize
-//@ functions: hll::array6::Array6::serialize
-//@ functions: hll::array6::Array6::deserialize
+//@ functions: hll::sketch::HllSketch::serialize
 //@ functions: hll::sketch::HllSketch::deserialize
-//@ bounds: lg_k = 4: Hll8 and Hll6 arrays with all 16 registers (0..=63) and the estimator state (HIP accumulator, kxq0, kxq1: any finite f64; out-of-order flag) symbolic
-//@ desc: array images are 40 + k (Hll8) / 40 + 3k/4 + 1 (Hll6) bytes in the Java/C++ layout (preInts 10, serVer 1, family 7, lgK, flags with out-of-order bit 4, mode byte = HLL | type << 2, HIP accumulator, kxq0, kxq1 as f64 @8/@16/@24, numAtCurMin u32 @32, auxCount @36, registers @40) as read by an independent decoder; deserialize(serialize(s)) == s; and the same bytes with the COMPACT flag set (the form Java/C++ emit by default) decode to the same registers
+//@ bounds: lg_k = 4: Hll8 array with all 16 registers (0..=63) and the estimator state (HIP accumulator, kxq0, kxq1: any finite f64; out-of-order flag) symbolic
+//@ desc: the Hll8 image is 40 + k bytes in the Java/C++ layout (preInts 10, serVer 1, family 7, lgK, flags with out-of-order bit 4, mode byte = HLL | type << 2, HIP accumulator, kxq0, kxq1 as f64 @8/@16/@24, numAtCurMin u32 @32, auxCount @36, registers @40) as read by an independent decoder; deserialize(serialize(s)) == s; the same bytes with the COMPACT flag set (the form Java/C++ emit by default) decode to the same sketch
 #[kani::proof]
-#[kani::unwind(24)]
+#[kani::unwind(60)]
 #[kani::stub(alloc::fmt::format, stub_format)]
-fn c11_hll_array68_roundtrip_layout() {
-    let regs: [u8; 16] = kani::any();
-    let mut i = 0;
-    while i < 16 {
-        kani::assume(regs[i] <= 63);
-        i += 1;
-    }
+fn c11_hll_array8_roundtrip_layout() {
+    let (regs, zeros) = any_regs16();
     let e = any_estimator();
-    let zeros = {
-        let mut z = 0u32;
-        let mut i = 0;
-        while i < 16 {
-            if regs[i] == 0 {
-                z += 1;
-            }
-            i += 1;
-        }
-        z
-    };
-    // ---- Hll8
     let s8 = HllSketch::from_mode(4, Mode::Array8(v8::raw_array8(4, &regs, e.clone())));
     let b8 = s8.serialize();
     assert!(b8.len() == 40 + 16, "Hll8 image is not 40 + k bytes");
-    assert!(b8[0] == 10 && b8[1] == 1 && b8[2] == 7 && b8[3] == 4, "preInts / serVer / family / lgK");
-    assert!((b8[5] & 16 != 0) == e.is_out_of_order(), "out-of-order flag");
-    assert!(b8[5] & 4 == 0, "empty flag on an array image");
-    assert!(b8[7] == (2 | (2 << 2)), "mode byte: HLL mode, Hll8");
-    assert!(rd_f64_bits(&b8, 8) == e.hip_accum().to_bits() && rd_f64_bits(&b8, 16) == e.kxq0().to_bits() && rd_f64_bits(&b8, 24) == e.kxq1().to_bits(), "estimator fields");
-    assert!(rd_u32(&b8, 32) == zeros && rd_u32(&b8, 36) == 0, "numAtCurMin / auxCount");
+    check_array_header(&b8, &e, zeros, 2);
     let mut i = 0;
     while i < 16 {
         assert!(b8[40 + i] == regs[i], "Hll8 register byte");
         i += 1;
     }
-    let g8 = HllSketch::deserialize(&b8);
-    let g8 = crate::verif_kani_common::expect_ok(g8, "own Hll8 image rejected");
-    assert!(g8 == s8, "Hll8 round trip changed the sketch");
-    // the compact-flag variant (C13)
-    let mut b8c = [0u8; 56];
+    let mut img = [0u8; 56];
     let mut i = 0;
     while i < 56 {
-        b8c[i] = b8[i];
+        img[i] = b8[i];
         i += 1;
     }
-    b8c[5] |= 8;
-    let g8c = HllSketch::deserialize(&b8c);
-    let g8c = crate::verif_kani_common::expect_ok(g8c, "compact-flag Hll8 image rejected");
-    assert!(g8c == s8, "compact-flag Hll8 image decoded to different registers / estimator");
-    // ---- Hll6
-    let a6 = v6::array6_from_regs(4, &regs, e.clone());
-    let s6 = HllSketch::from_mode(4, Mode::Array6(a6));
+    let compact: bool = kani::any();
+    if compact {
+        img[5] |= 8;
+    }
+    let g8 = crate::verif_kani_common::expect_ok(HllSketch::deserialize(&img), "valid Hll8 image rejected");
+    assert!(g8 == s8, "Hll8 image (plain or COMPACT flag) decoded to different registers / estimator");
+    kani::cover!(compact && zeros == 3);
+    kani::cover!(!compact && e.is_out_of_order());
+    core::mem::forget((s8, g8, b8));
+}
+
+//@ props: C11 C12 C13 C18
+//@ tier: quick
+//@ timeout: 1800
+//@ functions: hll::array6::Array6::serialize
+//@ functions: hll::array6::Array6::deserialize
+//@ functions: hll::sketch::HllSketch::deserialize
+//@ bounds: lg_k = 4: Hll6 array with all 16 registers (0..=63) and the estimator state symbolic
+//@ desc: the Hll6 image is 40 + 3k/4 + 1 bytes, registers packed LSB-first 6 bits each @40; header as for Hll8 with target type 1; round trip restores the sketch, also with the COMPACT flag set
+#[kani::proof]
+#[kani::unwind(60)]
+#[kani::stub(alloc::fmt::format, stub_format)]
+fn c11_hll_array6_roundtrip_layout() {
+    let (regs, zeros) = any_regs16();
+    let e = any_estimator();
+    let s6 = HllSketch::from_mode(4, Mode::Array6(v6::array6_from_regs(4, &regs, e.clone())));
     let b6 = s6.serialize();
     assert!(b6.len() == 40 + 13, "Hll6 image is not 40 + 3k/4 + 1 bytes");
-    assert!(b6[7] == (2 | (1 << 2)), "mode byte: HLL mode, Hll6");
-    assert!(rd_u32(&b6, 32) == zeros);
+    check_array_header(&b6, &e, zeros, 1);
     let mut i = 0;
     while i < 16 {
         assert!(v6::spec_get6(&b6[40..], i) == regs[i], "Hll6 register not at its LSB-first 6-bit position");
         i += 1;
     }
-    let g6 = HllSketch::deserialize(&b6);
-    let g6 = crate::verif_kani_common::expect_ok(g6, "own Hll6 image rejected");
-    assert!(g6 == s6, "Hll6 round trip changed the sketch");
-    let mut b6c = [0u8; 53];
+    let mut img = [0u8; 53];
     let mut i = 0;
     while i < 53 {
-        b6c[i] = b6[i];
+        img[i] = b6[i];
         i += 1;
     }
-    b6c[5] |= 8;
-    let g6c = HllSketch::deserialize(&b6c);
-    let g6c = crate::verif_kani_common::expect_ok(g6c, "compact-flag Hll6 image rejected");
-    assert!(g6c == s6, "compact-flag Hll6 image decoded to different registers");
-    kani::cover!(zeros == 3 && e.is_out_of_order());
-    core::mem::forget((s8, s6, g8, g8c, g6, g6c, b8, b6));
+    let compact: bool = kani::any();
+    if compact {
+        img[5] |= 8;
+    }
+    let g6 = crate::verif_kani_common::expect_ok(HllSketch::deserialize(&img), "valid Hll6 image rejected");
+    assert!(g6 == s6, "Hll6 image (plain or COMPACT flag) decoded to different registers / estimator");
+    kani::cover!(compact);
+    kani::cover!(!compact && zeros == 2);
+    core::mem::forget((s6, g6, b6));
 }
